@@ -66,10 +66,14 @@ def find_parity_sums(fn):
     """np.sum(<product>, ...) calls whose first argument is (after inlining single-assignment temporaries) a product of two charge arrays"""
     out = []
     inl = A.Inliner(fn, depth=3)
-    for c in [n for n in ast.walk(fn) if isinstance(n, ast.Call) and A.call_name(n) in ("np.sum", "numpy.sum")]:
-        if not c.args:
+    for c in [n for n in ast.walk(fn) if isinstance(n, ast.Call)]:
+        if A.call_name(n_ := c) in ("np.sum", "numpy.sum") and c.args:
+            first = c.args[0]
+        elif isinstance(c.func, ast.Attribute) and c.func.attr == "sum" and not (isinstance(c.func.value, ast.Name) and c.func.value.id in ("np", "numpy")):
+            first = c.func.value          # (<product>).sum(axis=..)  ==  np.sum(<product>, axis=..)
+        else:
             continue
-        e = inl.expand(c.args[0])
+        e = inl.expand(first)
         # do not look through the parity reductions `np.sum(tset[:, l1, :], axis=1) % 2` of single legs: inline only names
         prod = e
         if isinstance(prod, ast.Subscript):
@@ -657,7 +661,12 @@ def run(chk):
             cur, cand = t.operand.args
             loopvars = A.assigned_names(loop.target)
             rebound = {nm for b_ in inner[0].body for n in ast.walk(b_) if isinstance(n, ast.Assign) for nm in A.assigned_names(n.targets[0])}
-            ok = isinstance(cand, ast.Name) and cand.id in loopvars and isinstance(cur, ast.Name) and cur.id in rebound
+            # the candidate is the loop variable or a local computed from it in the loop body (`site = sites[ind]`)
+            derived = set(loopvars)
+            for b_ in loop.body:
+                if isinstance(b_, ast.Assign) and isinstance(b_.targets[0], ast.Name) and any(isinstance(x, ast.Name) and x.id in loopvars for x in ast.walk(b_.value)):
+                    derived.add(b_.targets[0].id)
+            ok = isinstance(cand, ast.Name) and cand.id in derived and isinstance(cur, ast.Name) and cur.id in rebound
     chk.verdict("W4", (sco, inner[0] if inner else sco.node), inner[0].test if inner else "f_ordered test", True if ok else False,
                 "sign_canonical_order: the selection of the next site no longer uses `not f_ordered(first_site, site)`")
 
